@@ -51,7 +51,7 @@ def bstr(b):
     return "None" if b is None else "(%s, %s)" % (b[0], b[1])
 
 
-def run_family(ctx, q, kind):
+def run_family(ctx, q, kind, rule="R01.f"):
     hier = ctx.hier
     f = hier.resolve(q, "_validate")
     vb = hier.resolve(q, "_validate_bounds")
@@ -102,7 +102,7 @@ def run_family(ctx, q, kind):
     ctx.abstract_cases += n
     name = q.rsplit(".", 1)[-1]
     if not mismatches:
-        ctx.ok("R01.f", vb, vb.node, "%s: %d abstract cases (bounds x inclusivity x allow_None x ordering class%s), validator == oracle on all" % (
+        ctx.ok(rule, vb, vb.node, "%s: %d abstract cases (bounds x inclusivity x allow_None x ordering class%s), validator == oracle on all" % (
             name, n, "" if kind != "range" else " pairs"))
         return
     # one finding per (resolved validator, kind of disagreement)
@@ -120,7 +120,7 @@ def run_family(ctx, q, kind):
         if key in seen:
             continue
         seen.add(key)
-        ctx.fail("R01.f", vb, vb.node,
+        ctx.fail(rule, vb, vb.node,
                  "%s (dynamic type %s): %s: value class %s with bounds=%s inclusive_bounds=%s allow_None=%s -> validator %s, "
                  "specification %s (%d disagreeing abstract cases of this kind)" % (
                      vb.qualname.rsplit(".", 2)[-2] + "." + vb.name, name, kindtxt, cls, bstr(bounds), incl, allow_none,
@@ -130,16 +130,16 @@ def run_family(ctx, q, kind):
                  input="param.%s(bounds=%s, inclusive_bounds=%s) <- value in class %s" % (name, bstr(bounds), incl, cls))
 
 
-def rule_f(ctx):
+def rule_f(ctx, rule="R01.f"):
     for q in NUMBER_FAMILY:
         ctx.repo.cls(q)
-        run_family(ctx, q, "number")
+        run_family(ctx, q, "number", rule)
     for q in RANGE_FAMILY:
         ctx.repo.cls(q)
-        run_family(ctx, q, "range")
+        run_family(ctx, q, "range", rule)
     for q in LIST_FAMILY:
         ctx.repo.cls(q)
-        run_family(ctx, q, "list")
+        run_family(ctx, q, "list", rule)
     ctx.exhaustive = True
     ctx.assumptions.append("R01.f: declared bounds are well typed and LO < HI; `_to_datetime` is order preserving; "
                            "validators not named _validate_bounds are treated as passing (only the bounds clause is decided); callable(value) is False")
